@@ -18,6 +18,7 @@ import (
 	"fmt"
 	"net"
 	"os"
+	"runtime"
 	"strings"
 	"testing"
 	"time"
@@ -181,6 +182,32 @@ func vhEval(m *MatchHTTP, prefix []byte) (v int, reads int, rest []byte, emsg st
 	n, _ := cx.Read(tmp)
 	rest = tmp[:n]
 	return
+}
+
+func vhTotalAlloc() uint64 {
+	var ms runtime.MemStats
+	runtime.ReadMemStats(&ms)
+	return ms.TotalAlloc
+}
+
+// the bound the other matcher engines use for "a small multiple of the matching buffer limit"
+const vhAllocBound = 16 * layer4.MaxMatchingBytes
+
+// bytes allocated by one Match call on prefix (smallest of up to three measurements, so that an
+// allocation of the runtime or of another goroutine is not attributed to the matcher)
+func vhAlloc(m *MatchHTTP, prefix []byte) uint64 {
+	best := ^uint64(0)
+	for try := 0; try < 3; try++ {
+		a0 := vhTotalAlloc()
+		vhEval(m, prefix)
+		if d := vhTotalAlloc() - a0; d < best {
+			best = d
+		}
+		if best <= vhAllocBound {
+			break
+		}
+	}
+	return best
 }
 
 func TestVerifHTTP(t *testing.T) {
@@ -375,6 +402,68 @@ func TestVerifHTTP(t *testing.T) {
 			}
 			out.Case("", "http2-noheaders", k >= 10, map[string]any{"frames": k, "variant": variant, "verdict": vhNames[v]})
 		}
+	}
+	// HTTP/2 prior-knowledge preface followed by ONE frame header that declares a large payload
+	// (up to the 2^24-1 the frame format allows), with none / some / as much as fits of that payload
+	// present: the matcher must answer (error or "more") without allocating the declared size. Also
+	// HTTP/1 requests announcing a huge body. Allocation is measured per Match call.
+	{
+		m := mk(vhFilter{})
+		var maxAlloc uint64
+		check := func(class string, data []byte, nt bool) {
+			v, _, _, emsg := vhEval(m, data)
+			evals++
+			if v == vhPanic {
+				out.Fail("C04:http:panic", "http matcher panicked: "+emsg, map[string]any{"class": class, "hex": fmt.Sprintf("%x", data[:min(len(data), 64)])})
+			}
+			a := vhAlloc(m, data)
+			if a > maxAlloc {
+				maxAlloc = a
+			}
+			if a > vhAllocBound {
+				out.Fail("C04:http:alloc", fmt.Sprintf("one Match call on %d bytes allocated %d bytes (bound %d = 16 x matching limit)", len(data), a, vhAllocBound),
+					map[string]any{"class": class, "len": len(data), "hex_head": fmt.Sprintf("%x", data[:min(len(data), 64)]), "verdict": vhNames[v], "err": emsg})
+			}
+			out.Case("", class, nt, map[string]any{"len": len(data), "verdict": vhNames[v], "alloc": a})
+		}
+		for _, ftype := range []byte{0, 1, 4, 5, 9, 0x7f} {
+			for _, flen := range []uint32{0, 100, 8191, 8192, 16384, 16385, 65536, 1 << 20, 1<<24 - 1} {
+				for _, present := range []int{0, 1, 200, 8000} {
+					var b bytes.Buffer
+					b.WriteString("PRI * HTTP/2.0\r\n\r\nSM\r\n\r\n")
+					if ftype == 0x7f { // a SETTINGS frame first, as real clients send
+						_ = http2.NewFramer(&b, nil).WriteSettings()
+					}
+					ft := ftype
+					if ft == 0x7f {
+						ft = 1
+					}
+					b.Write([]byte{byte(flen >> 16), byte(flen >> 8), byte(flen), ft, 4, 0, 0, 0, 1})
+					k := present
+					if uint32(k) > flen {
+						k = int(flen)
+					}
+					b.Write(rng.Bytes(k))
+					check(fmt.Sprintf("http2-bigframe/type%d", ftype), b.Bytes(), flen > 16384)
+				}
+			}
+		}
+		for _, cl := range []string{"0", "100", "100000000", "99999999999999"} {
+			for _, te := range []bool{false, true} {
+				req := "POST /upload HTTP/1.1\r\nHost: example.com\r\nContent-Length: " + cl + "\r\n"
+				if te {
+					req = "POST /upload HTTP/1.1\r\nHost: example.com\r\nTransfer-Encoding: chunked\r\n"
+				}
+				req += "\r\n"
+				body := "ffffffff\r\n" + strings.Repeat("z", 300)
+				check("http1-bigbody", []byte(req+body), len(cl) > 3)
+			}
+		}
+		// header block as long as the matching buffer allows
+		for _, hl := range []int{1000, 4000, 7900} {
+			check("http1-longheader", []byte("GET / HTTP/1.1\r\nHost: example.com\r\nX-Long: "+strings.Repeat("a", hl)+"\r\n\r\n"), true)
+		}
+		out.Stat("max_alloc_per_match", int(maxAlloc))
 	}
 	out.Stat("evaluations", evals)
 }
